@@ -125,6 +125,56 @@ type finding struct {
 	Raw    map[string]interface{} `json:"-"`
 }
 
+// diedInRepo inspects the output of a worker that exited abnormally. If it shows a Go panic or runtime fault
+// and, walking the failing goroutine's frames from the innermost outward, a frame of the repository under test
+// comes before any frame of the harness (the failure is in, or beneath, the code under test), it returns what
+// happened and that frame.
+func diedInRepo(out string) (what, frame string) {
+	at := -1
+	for _, m := range []string{"panic: ", "fatal error: ", "unexpected fault address"} {
+		if i := strings.Index(out, m); i >= 0 && (at < 0 || i < at) {
+			at = i
+		}
+	}
+	if at < 0 {
+		return "", ""
+	}
+	rest := out[at:]
+	first := rest
+	if i := strings.IndexByte(first, '\n'); i >= 0 {
+		first = first[:i]
+	}
+	// the failing goroutine is the first one listed after the message
+	g := strings.Index(rest, "\ngoroutine ")
+	if g < 0 {
+		return "", ""
+	}
+	lines := strings.Split(rest[g+1:], "\n")
+	for _, l := range lines[1:] {
+		if l == "" {
+			break
+		}
+		if strings.HasPrefix(l, "\t") || strings.HasPrefix(l, " ") {
+			continue
+		}
+		fn := l
+		if i := strings.LastIndexByte(fn, '('); i > 0 {
+			fn = fn[:i]
+		}
+		switch {
+		case strings.HasPrefix(fn, "created by"):
+			return "", ""
+		case strings.HasPrefix(fn, "github.com/hashicorp/raft-wal"):
+			// reached from the innermost frame outward before any harness frame: the failure is in,
+			// or in something called by, the code under test
+			return first, fn
+		case strings.HasPrefix(fn, "main.") || strings.HasPrefix(fn, "verif/"):
+			return "", ""
+		}
+	}
+	return "", ""
+}
+
 type shardResult struct {
 	Prop       string                      `json:"prop"`
 	Shard      int                         `json:"shard"`
@@ -259,6 +309,15 @@ func main() {
 			o, err := cmd.CombinedOutput()
 			timer.Stop()
 			if err != nil {
+				if what, frame := diedInRepo(string(o)); what != "" {
+					// the worker process was brought down by a panic or runtime fault whose innermost
+					// non-runtime frame is code under test: that is a finding, not a harness failure
+					f, _ := json.Marshal(map[string]interface{}{"property": id, "engine": "died", "sig": id + "|died|" + frame,
+						"msg": fmt.Sprintf("the worker process died inside the code under test (%s in %s); shard %d of %d, %v\n%s", what, frame, i, n, err, tail(string(o), 1500))})
+					results[i] = &shardResult{Shard: i, Done: true, Exhaustive: false, Findings: []json.RawMessage{f},
+						Notes: []string{fmt.Sprintf("shard %d died inside the code under test; what it had explored until then is not counted", i)}}
+					return
+				}
 				errs[i] = fmt.Sprintf("shard %d: %v\n%s", i, err, tail(string(o), 4000))
 				return
 			}
